@@ -47,6 +47,31 @@ class C13Irrigation(Monitor):
         self.cum = 0.0
         self.cur_season = None
 
+    def _advance_stage(self, ctx, post):
+        """Reference growth-stage automaton: time since sowing in the units of the crop calendar, minus the time during which the
+        seed had not germinated (counted here from the germination flag), against the season crop's stage boundaries."""
+        from .crop import season_crop
+        from ..driver import GX
+
+        cond = ctx.model._init_cond
+        g = post.growth
+        if not bool(getattr(cond, "germination", True)):
+            self.del_days += 1
+            self.del_gdd += float(g[GX["gdd"]])
+        crop = season_crop(ctx, post.season)
+        if int(crop.CalendarType) == 1:
+            tadj = float(g[GX["dap"]]) - self.del_days
+        else:
+            tadj = float(g[GX["gdd_cum"]]) - self.del_gdd
+        if tadj <= float(crop.Canopy10Pct):
+            self.ref_stage = 1
+        elif tadj <= float(crop.MaxCanopy):
+            self.ref_stage = 2
+        elif tadj <= float(crop.Senescence):
+            self.ref_stage = 3
+        else:
+            self.ref_stage = 4
+
     def on_transition(self, ctx, pre, post):
         f = post.flux
         t = pre.t
@@ -67,6 +92,9 @@ class C13Irrigation(Monitor):
         if dap == 1 or self.cur_season != post.season:
             self.cum = 0.0
             self.cur_season = post.season
+            self.del_days, self.del_gdd, self.ref_stage = 0, 0.0, 1
+        stage_in_force = getattr(self, "ref_stage", 1)   # decided at the end of yesterday (1 on the first day of a season)
+        self._advance_stage(ctx, post)
         m = self.method
         if m == 0:
             if irr != 0:
@@ -129,6 +157,12 @@ class C13Irrigation(Monitor):
                 g = int(call["in"].get("NewCond_GrowthStage", 0))
                 if dap == 1:
                     g = 1
+                # the growth stage is re-derived from the crop calendar and the delay of germination counted by the monitor
+                if g != stage_in_force:
+                    ctx.violate("threshold-uses-current-growth-stage", t, observed={"stage_used": g}, expected={"stage_from_calendar": stage_in_force, "dap": dap, "delayed_days": self.del_days})
+                    g = stage_in_force
+                if self.del_days > 0 and stage_in_force >= 2:
+                    ctx.hit("stage_after_delayed_germination")
                 thr = 1 - self.smt[g - 1] / 100.0
                 trig = (D / taw) > thr if taw != 0 else False
                 if trig:
